@@ -196,6 +196,7 @@ CLAIMS = {
              'the answer inside the modifying session equals the answer of a new session after the same modifications were committed.',
         note='Agreement of cache-answered lookups with database queries is history-dependent: covered only for the enumerated scripts (bounded). The oracle is pony itself after commit.'),
     'C15': dict(
+        category='other',
         text='BOUNDED decision table executed end to end on real SQLite with foreign keys enforced: for every relationship shape (one-to-many, one-to-one with the column on either side, '
              'many-to-many) x cascade_delete option (default / True / False) x reverse side required / optional x dependents present or not x loaded or not x obj.delete() / Query.delete() / '
              'Query.delete(bulk=True) the real Entity._delete_ / flush / generated schema behave as the property states: cascading dependents are deleted (in the session and in the database), '
